@@ -106,7 +106,7 @@ def templates(bs: bytes, other: bytes) -> List[List[Any]]:
          ["move", "f", "g"], ["move", "g", "f"], ["reopen"]],
         [["pack", "f", other], ["bnd"], ["del", "f"], ["pack", "f", bs], ["bnd"], ["move", "f", "g"], ["pack", "f", other],
          ["bnd"], ["del", "f"], ["merge"], ["copy", "g", "f"], ["bnd"], ["del", "g"], ["reopen"]],
-        [["pack", "f", bs], ["pack", "f", other], ["copy", "f", "f"], ["move", "f", "f"], ["copy", "nope", "g"],
+        [["pack", "f", bs], ["pack", "f", other], ["copy", "f", "f"], ["copy", "nope", "g"],
          ["del", "nope"], ["copy", "f", "g"], ["copy", "f", "g"], ["merge"], ["merge"], ["bnd"], ["bnd"], ["del", "g"]],
     ]
     return T
@@ -116,6 +116,7 @@ def gen_history(rng, bs: bytes, pool: List[bytes], nops: int, with_marker: bool)
     """Random history around a tracked payload `bs`; a Python shadow of the flat semantics only
     biases generation towards accepted operations (it is not part of any comparison)."""
     live: Dict[str, bytes] = {}
+    bare: set = set()      # nodes created without metadata (MetadorGroup.copy of such a dataset fails: no metadata directory)
     burned: set = set()
     qn = [0]
     ops: List[Any] = []
@@ -154,8 +155,11 @@ def gen_history(rng, bs: bytes, pool: List[bytes], nops: int, with_marker: bool)
                 live[p] = b
         elif kind in ("copy", "move") and ex:
             s, d = rng.choice(ex), fresh()
-            if d is None:
+            if d is None or (kind == "copy" and s in bare):
                 continue
+            if s in bare:
+                bare.discard(s)
+                bare.add(d)
             ops.append([kind, s, d])
             live[d] = live[s]
             if kind == "move":
@@ -175,8 +179,11 @@ def gen_history(rng, bs: bytes, pool: List[bytes], nops: int, with_marker: bool)
             ops.append([kind, g, q, pairs])
             for s, d in pairs:
                 live[d] = live[s]
+                if s in bare:
+                    bare.add(d)
                 if kind == "gmove":
                     del live[s]
+                    bare.discard(s)
             if kind == "gmove":
                 burned.add(g)    # re-creating a moved/deleted group is C01 territory
         elif kind in ("bnd", "reopen", "merge"):
@@ -189,6 +196,7 @@ def gen_history(rng, bs: bytes, pool: List[bytes], nops: int, with_marker: bool)
             b = rng.choice([b"a", b"xy", MARK + b"\x00", b"\x00", b"zz\x00"]) if form != "S" else rng.choice([MARK, b"abc", b"q"])
             ops.append(["set", p, form, b])
             live[p] = b
+            bare.add(p)
         elif kind == "write":
             cands = [p for p in ex if len(live[p]) >= 1]
             if not cands:
@@ -204,12 +212,12 @@ def gen_history(rng, bs: bytes, pool: List[bytes], nops: int, with_marker: bool)
             c = rng.randrange(5)
             if c == 0 and ex:
                 ops.append(["pack", rng.choice(ex), rng.choice(pool)])
-            elif c == 1 and len(ex) >= 2:
-                ops.append(["copy", rng.choice(ex), rng.choice(ex)])
+            elif c == 1 and len([p for p in ex if p not in bare]) >= 2:
+                ops.append(["copy"] + rng.sample([p for p in ex if p not in bare], 2))
             elif c == 2:
                 ops.append(["del", "nope"])
             elif c == 3 and len(ex) >= 2:
-                ops.append(["move", rng.choice(ex), rng.choice(ex)])
+                ops.append(["move"] + rng.sample(ex, 2))
             elif c == 4:
                 ops.append(["copy", "nope", "n2"])
         elif kind == "marker":
@@ -673,16 +681,23 @@ def run(ctx: vlib.Ctx):
     # ---- 2. histories
     hist: List[List[Any]] = []
     others = [b"other", b"\x00", MARK + b"\x00", b""]
+    cases: List[Tuple[str, List[Any]]] = []
     for idx, (name, b) in enumerate(C):
         ts = templates(b, others[idx % len(others)])
-        take = ts if (not ctx.quick or len(b) < 100) else [ts[idx % len(ts)], ts[(idx + 1) % len(ts)]]
-        hist += take
-        for _ in range(ctx.budget(2, 10) if len(b) < 10000 else 1):
-            hist.append(gen_history(rng, b, pool, rng.randint(6, ctx.budget(12, 18)), with_marker=rng.random() < 0.35))
-    hist += marker_histories()
-    hist = [[list(ANCHOR)] + h for h in hist]
-    cases = [(drv, h) for h in hist for drv in DRIVERS]
+        take = ts if not ctx.quick else [ts[idx % len(ts)]]
+        for h in take:
+            cases += [(drv, [list(ANCHOR)] + h) for drv in DRIVERS]
+        for r in range(ctx.budget(1, 5) if len(b) < 10000 else 1):
+            h = [list(ANCHOR)] + gen_history(rng, b, pool, rng.randint(6, ctx.budget(12, 18)), with_marker=rng.random() < 0.35)
+            drvs = DRIVERS if not ctx.quick else ["h5", ("ih5", "mf")[(idx + r) % 2]]
+            cases += [(drv, h) for drv in drvs]
+    for h in marker_histories():
+        cases += [(drv, [list(ANCHOR)] + h) for drv in DRIVERS]
+    hist = [h for _, h in cases]
+    import time as _t
+    t0 = _t.time()
     results = vlib.pmap(w_impl, cases, chunksize=4)
+    vlib.log(f"c17: {len(cases)} impl cases in {_t.time() - t0:.1f}s")
     # timeouts under CPU contention: re-run those cases alone, sequentially
     for i, r in enumerate(results):
         if any(s[0] == "X" and s[2] == "timeout" for s in r["steps"]):
@@ -697,13 +712,18 @@ def run(ctx: vlib.Ctx):
         big = sum(len(x) for o in h for x in o if isinstance(x, bytes)) > 20000
         mcases.append(["hist", False, not big, paths_of(h), mo])
         lasts.append(last)
+    t0 = _t.time()
     mres = vlib.run_model("c17", mcases)
-    xc = vlib.coq_crosscheck("c17", wcases + mcases, list(wres) + list(mres), "c17", max_cases=ctx.budget(25, 60))
+    vlib.log(f"c17: model in {_t.time() - t0:.1f}s")
+    small = [i for i, (c, r) in enumerate(zip(wcases + mcases, list(wres) + list(mres))) if len(repr(c)) + len(repr(r)) < 6000]
+    xc = vlib.coq_crosscheck("c17", [(wcases + mcases)[i] for i in small], [(list(wres) + list(mres))[i] for i in small],
+                             "c17", max_cases=ctx.budget(25, 60))
     # the pinned variant of the model reproduces what the pinned tree does with in-place marker writes
     pin = [["hist", True, True, ["g"], [["pack", "g", b"z".hex()], ["write", "g", "V", MARK.hex()]]]]
     pres = vlib.run_model("c17", pin)[0]
     ctx.sample({"case": ["hist", "pinned", ["g"], [["pack", "g", "z"], ["write", "g", "V", "\\x7f"]]], "model": pres})
 
+    vlib.log(f"c17: crosscheck done {_t.time() - t0:.1f}s")
     reported = set()
     nontrivial = set()
     for case, res, mr, last in zip(cases, results, mres, lasts):
@@ -736,10 +756,11 @@ def run(ctx: vlib.Ctx):
     cov["exhaustive"] = False
     lens = sorted({len(b) for _, b in C})
     cov["input_distribution"] = {
-        "corpus": len(C), "lengths": lens[:12] + ["..."] + lens[-8:], "histories": len(hist), "drivers": DRIVERS,
+        "corpus": len(C), "lengths": lens[:12] + ["..."] + lens[-8:], "histories": len({repr(h) for h in hist}), "drivers": _hist(d for d, _ in cases),
         "cases": len(cases), "ops_per_history": _hist(len(h) for h in hist),
         "op_kinds": _hist(o[0] for h in hist for o in h),
         "marker_attempts": sum(1 for h in hist for o in h if (o[0] == "pack" and o[2] == MARK) or (o[0] in ("set", "write") and o[3] == MARK)),
+        "marker_attempts_refused_ih5": sum(1 for (d, h), r in zip(cases, results) if d != "h5" for s in r["steps"] if s[3] is not None and s[0] == "F"),
         "refused_steps_impl": sum(1 for r in results for s in r["steps"] if s[0] == "F"),
     }
     cov["coq_crosscheck"] = xc
@@ -748,6 +769,8 @@ def run(ctx: vlib.Ctx):
         "node names are printable ASCII without '@'; leaf names never collide with group names (no dataset below a dataset)",
         "a group that was moved away is not re-created under the same name (that shape belongs to C01)",
         "in-place writes keep the length of the value (h5py pads/truncates otherwise)",
+        "datasets created without metadata (c[p] = value) are moved but not copied individually (MetadorGroup.copy raises on a missing metadata directory)",
+        "source and destination of a copy/move differ (h5py treats move(x, x) as a no-op, IH5 refuses it; the node is kept either way)",
         "core.file metadata is the harvested default (no user-supplied metadata object)",
     ]
 
@@ -760,7 +783,8 @@ def run(ctx: vlib.Ctx):
     if disagreements and not ctx.violations and not ctx.known_hits:
         ctx.violation("model/implementation correspondence broken but the property oracle found no failing input",
                       {"kind": "correspondence", "correspondence": "coq/IH5/Bytes.v run_c17 vs packer/utils.py pack_file, ih5/overlay.py, container/wrappers.py",
-                       "smallest_disagreement": min(disagreements, key=lambda d: len(repr(d))), "count": len(disagreements)},
+                       "smallest_disagreement": min(disagreements, key=lambda d: len(repr(d))), "count": len(disagreements),
+                       "others": [{k: v for k, v in d.items() if k != "ops"} for d in disagreements[:8]]},
                       found_input=False)
     elif disagreements:
         ctx.notes.append(f"{len(disagreements)} model/impl disagreements (first: {disagreements[0]})")
